@@ -3,7 +3,7 @@
     panic-site table, and the corollaries for the stages other properties model (C11 schema extensions, C13
     imports, C12 runtime documents / loader, C10 schema declarations). *)
 From V Require Import Base.Util Gql.Ast Peg.Peg Gen.C07_grammar_gen C07.Builder C07.Model.
-From V Require Import C08.Model C08.Spec C08.SiteType Gen.C08_sites_gen C08.Sites C08.ProofsRender C08.ProofsEscape C08.Shape C08.ProofsShape C08.ProofsMerge C08.Proofs.
+From V Require Import C08.Model C08.Spec C08.SiteType Gen.C08_sites_gen C08.Sites C08.ProofsRender C08.ProofsEscape C08.Shape C08.ProofsShape C08.ProofsMerge C08.ImportsCost C08.Proofs.
 From V Require C03.Properties C07.Fuel C11.Properties C12.Properties C13.Properties.
 Local Open Scope N_scope.
 
@@ -159,3 +159,12 @@ Theorem C08_merge_unchecked_refuted :
   check_then_tree w_merge_schema w_merge_trees = Some ([], Some (C01.Model.Err C01.Model.EMergeTrees)).
 Proof. exact merge_unchecked_refuted. Qed.
 Print Assumptions C08_merge_unchecked_refuted.
+
+(** import resolution is linear: in the cost-instrumented copy of C13's model (same results: first conjunct) the
+    number of files entered -- calls of the resolver / recursive calls -- is at most the number of files, for
+    every import graph (shared files, diamonds, cycles).  The harness checks the same count on the implementation. *)
+Theorem C08_imports_linear : forall st root_path root,
+  fst (resolve_imports_c st root_path root) = C13.Model.resolve_imports st root_path root /\
+  (snd (resolve_imports_c st root_path root) <= length st)%nat.
+Proof. exact imports_linear. Qed.
+Print Assumptions C08_imports_linear.
